@@ -48,7 +48,10 @@ class BigMapType(MapType, prim='big_map', args_len=2):
             return f'{{{", ".join(elements)}}}'
 
     def __deepcopy__(self, memodict):
-        return self.duplicate()
+        res = self.duplicate()
+        # keep the reference unless the context itself is being copied in the same deepcopy
+        res.context = memodict.get(id(self.context), self.context)
+        return res
 
     def __getitem__(self, key_obj) -> Optional[MichelsonType]:  # type: ignore
         key = self.args[0].from_python_object(key_obj)
